@@ -130,7 +130,8 @@ class _State:
 
 class Explorer:
     def __init__(self, fn, is_effect=None, pure=None, model=None, stop_at=(), max_paths=MAX_PATHS_DEFAULT,
-                 record_stores=True, bool_types=True, max_visits=1, program=None, inline=None, depth=0):
+                 record_stores=True, bool_types=True, max_visits=1, program=None, inline=None, depth=0,
+                 inline_effects=False):
         self.fn = fn
         self.is_effect = is_effect or (lambda c: False)
         self.pure = pure or (lambda c: False)
@@ -142,6 +143,7 @@ class Explorer:
         self.program = program
         self.inline = inline
         self.depth = depth
+        self.inline_effects = inline_effects
         self.site_suffix = "" if depth == 0 else "@" + short(fn.id)
         self.results = []
         self.call_ord = {c.bb: c for c in fn.calls()}
@@ -652,10 +654,12 @@ class Explorer:
     def should_inline(self, c, callee):
         if self.depth >= 2 or callee is self.fn:
             return False
-        if self.is_effect(c) or self.pure(c):
+        if self.pure(c) or (self.is_effect(c) and not self.inline_effects):
             return False
         if callable(self.inline):
             return bool(self.inline(c))
+        if self.inline == "effects" and not self.is_effect(c):
+            return False   # only look inside helpers that the effect predicate would otherwise flag by name
         # 'auto': small, loop-free, non-closure-taking workspace function
         if c.refs:
             return False
@@ -683,7 +687,7 @@ class Explorer:
             env["_%d" % (i + 1)] = v
         sub = Explorer(callee, is_effect=self.is_effect, pure=self.pure, model=self.model, max_paths=self.max_paths,
                        record_stores=self.record_stores, max_visits=1, program=self.program, inline=self.inline,
-                       depth=self.depth + 1)
+                       depth=self.depth + 1, inline_effects=self.inline_effects)
         try:
             sub_paths = sub.run(0, env)
         except TooManyPaths:
